@@ -380,6 +380,15 @@ func main() {
 						return
 					}
 				}
+				// a bound measures as its boundary ring, also diagonally off its corners, alone and as a member
+				obd := outer.Bound()
+				if db, dr := planar.DistanceFrom(obd, fpt(q)), planar.DistanceFrom(obd.ToRing(), fpt(q)); math.Abs(db-dr) > 1e-9*math.Max(scale, dr) {
+					c.Failf("bound-distance", "DistanceFrom(%v, %v) = %v, its boundary ring is %v away | %s", obd, fpt(q), db, dr, desc())
+					return
+				} else if dc := planar.DistanceFrom(orb.Collection{obd}, fpt(q)); math.Abs(dc-dr) > 1e-9*math.Max(scale, dr) {
+					c.Failf("bound-distance", "DistanceFrom(collection holding %v, %v) = %v, the boundary ring is %v away | %s", obd, fpt(q), dc, dr, desc())
+					return
+				}
 				got, idx := planar.DistanceFromWithIndex(mp, fpt(q))
 				wm, wi := w1, 0
 				if w2 < w1 {
